@@ -13,9 +13,28 @@ def state_fn(cfg, h, m, ref):
     return errs, {'edges_checked': n_edges, 'edges_with_two_neighbours': two, 'self_adjacent_edges': selfadj}
 
 
+def trans_fn(cfg, h, op, m2, ref_before):
+    """History on ONE mesh object: ask every edge for its neighbours (whatever the mesh memoises is now warm), apply the
+    bisection to the same object, ask again.  The second answer must be the geometric one for the new mesh."""
+    m = build(cfg, h)
+    if check_neighbours(m, ref_before):
+        return None  # reported by the state check of that state
+    m.refine_axis(find_leaf(m, op[0]), op[1])
+    ref_after = ref_before.copy()
+    ref_after.bisect_rect(op[0], op[1])
+    if leafset(m) != ref_after.leaves:
+        return None  # C02's business
+    errs = check_neighbours(m, ref_after)
+    if errs:
+        return ('queried-before-and-after-the-bisection:' + errs[0][0], errs[0][1])
+    return None
+
+
 def report(ctx):
     def on_violation(cfgname, hist, v):
         tag, detail = v
+        if tag == 'transition':
+            return
         if tag == 'refine-raised':
             ctx.refine_raised = getattr(ctx, 'refine_raised', 0) + 1  # a bisection failed: C02's business, the state is not reachable
             return
@@ -30,10 +49,10 @@ def run(ctx):
     st = meshmc.Stats()
     onv = report(ctx)
     for cfgname, d in depths.items():
-        meshmc.explore(ctx, cfgname, d, state_fn, None, onv, stats=st)
+        meshmc.explore(ctx, cfgname, d, state_fn, trans_fn, onv, stats=st)
     for cfgname in DEEP:
         for name, root in meshmc.deep_histories(cfgname, 3 if ctx.tier == 'quick' else 5).items():
-            meshmc.explore(ctx, cfgname, 1 if ctx.tier == 'quick' else 2, state_fn, None, onv, stats=st, root=root,
+            meshmc.explore(ctx, cfgname, 1 if ctx.tier == 'quick' else 2, state_fn, trans_fn, onv, stats=st, root=root,
                            label='{}+deep:{}'.format(cfgname, name))
     # supplementary random walks
     nrw = 0
@@ -48,6 +67,18 @@ def run(ctx):
                 continue  # C02's business
             for v in check_neighbours(m, ref):
                 onv(cfgname, h[:k], v)
+        # the same walk on ONE object with a full neighbour query after every step
+        m, ref = meshmc.fresh(cfg), meshmc.ref_initial(cfg)
+        for k, (rect, ax) in enumerate(h):
+            m.refine_axis(find_leaf(m, rect), ax)
+            ref.bisect_rect(rect, ax)
+            if leafset(m) != ref.leaves:
+                break
+            nrw += 1
+            errs = check_neighbours(m, ref)
+            if errs:
+                onv(cfgname, h[:k + 1], ('queried-after-every-step:' + errs[0][0], errs[0][1]))
+                break
     cov = {
         'states': st.states, 'transitions': st.transitions, 'traces_validated_against_impl': st.transitions,
         'edges_checked': int(st.extra.get('edges_checked', 0)),
